@@ -145,6 +145,7 @@ func buildProperties() []Property {
 				{"R-ABSENT-NOT-STATIC", 3, ruleAbsentNotStatic},
 				{"R-RETRACT-REMOVES", 1, ruleRetractRemoves},
 				{"R-ABOLISH-CLEARS", 1, ruleAbolishClears},
+				{"R-CLAUSE-IDENTITY", 1, ruleClauseIdentity},
 				{"R-SNAPSHOT", 2, func(c *Ctx, r *Report) { ruleSnapshot(c, r); ruleSnapshotPointers(c, r) }},
 				{"R-SLICE-OWNER", 4, ruleSliceOwner},
 				{"R-DB-WRITERS", 6, ruleStateWriters("R-DB-WRITERS", [][2]string{{"VM", "procedures"}, {"userDefined", "clauses"}},
